@@ -27,7 +27,7 @@ ASSUMPTIONS = [
 CALLS = (
     "sql", "sql", "sql", "sql_pretty", "sql_identify", "transform", "select", "where", "join", "group_by", "order_by", "limit", "with_", "from_",
     "optimize", "optimize", "qualify_copy", "annotate_copy", "expand", "replace_tables", "replace_placeholders", "diff_src", "diff_tgt", "lineage",
-    "dump", "copy", "hash_eq", "and_not", "normalize_copy", "simplify_copy", "subquery", "union",
+    "dump", "copy", "hash_eq", "and_not", "normalize_copy", "simplify_copy", "subquery", "union", "donate", "donate", "donate",
 )
 SCHEMA = {t: {c: ty for c, ty in zip(sqlcore.COLS, ("INT", "INT", "DOUBLE", "VARCHAR", "BIGINT", "VARCHAR", "TIMESTAMP"))} for t in sqlcore.TABLES}
 
@@ -107,6 +107,27 @@ def _do_call(t, c):
         if name == "with_":
             return t.with_("cz", as_="SELECT 1 AS one")
         return t.from_("ft")
+    if name == "donate":
+        # a NODE OF t is handed to a builder that documents copying its expression arguments (condition builders, alias_, subquery,
+        # with_/union): t must not lose or change that node. select/from_/join/group_by/order_by document "an Expr instance is used
+        # as-is", so handing them a node that lives in another tree is the caller's responsibility and not part of this check
+        host = sqlglot.parse_one("SELECT 1 AS one FROM host AS h")
+        pool = {
+            "join": [n for n in t.find_all(exp.Join)],
+            "table": [n for n in t.find_all(exp.Table)],
+            "cond": [n for n in t.find_all(exp.Condition) if not isinstance(n, (exp.Query, exp.Subquery, exp.Star))],
+            "query": [n for n in t.find_all(exp.Select) if n is not t],
+        }
+        kinds = [kk for kk, v in pool.items() if v]
+        if not kinds:
+            return None
+        kind = kinds[k % len(kinds)]
+        node = pool[kind][(k // 4) % len(pool[kind])]
+        if kind in ("join", "table"):
+            return exp.alias_(node, "al") if kind == "table" else None
+        if kind == "cond":
+            return (host.where(node), exp.and_(node, "zz > 1"), exp.alias_(node, "al"), exp.not_(node), host.having(node), exp.or_("zz < 1", node))[k % 6]
+        return (host.with_("cq", as_=node), host.union(node), exp.subquery(node, "sq"))[k % 3]
     if name == "subquery":
         return t.subquery("sq") if isinstance(t, exp.Query) else None
     if name == "union":
